@@ -18,6 +18,42 @@ os.environ.setdefault("TF_CPP_MIN_LOG_LEVEL", "3")
 from harness import kit  # noqa: E402
 
 
+def _descendants(pid):
+    kids = {}
+    for d in os.listdir("/proc"):
+        if d.isdigit():
+            try:
+                with open(f"/proc/{d}/stat") as fh:
+                    rest = fh.read().rsplit(")", 1)[1].split()
+                kids.setdefault(int(rest[1]), []).append(int(d))
+            except (OSError, IndexError, ValueError):
+                pass
+    out, todo = [], [pid]
+    while todo:
+        for k in kids.get(todo.pop(), []):
+            out.append(k)
+            todo.append(k)
+    return out
+
+
+def _arm_watchdog(tier):
+    """Wall-clock limit for the whole check (a hung worker must not hold a run slot for ever): on expiry all
+    descendant processes are killed and the check exits 2 (infrastructure, never a violation)."""
+    import signal
+    limit = int(os.environ.get("VERIF_MAX_WALL", "2400" if tier == "quick" else "10800"))
+
+    def _expired(_sig, _frm):
+        print(f"infrastructure error: wall-clock limit of {limit} s reached (hung worker?); killing workers", flush=True)
+        for k in _descendants(os.getpid()):
+            try:
+                os.kill(k, signal.SIGKILL)
+            except OSError:
+                pass
+        os._exit(2)
+    signal.signal(signal.SIGALRM, _expired)
+    signal.alarm(limit)
+
+
 def main():
     ap = argparse.ArgumentParser()
     ap.add_argument("pid")
@@ -32,6 +68,7 @@ def main():
         print(f"infrastructure error: no check module for {pid}: {e}")
         return 2
     slot = kit.acquire_run_slot()   # at most VERIF_RUN_SLOTS checks run at once on this machine
+    _arm_watchdog(args.tier)
     ctx = kit.Check(pid, args.tier, seed)
     try:
         if args.replay:
